@@ -25,13 +25,13 @@ try:
     rel = "./" + os.path.relpath(os.path.join(wt, pkg), os.path.join(wt, module)) + "/"
 
     def demo():
-        r = subprocess.run([go, "test", "-vet=off", "-count=1", "-run", rx, rel], cwd=os.path.join(wt, module), env=env, capture_output=True, text=True)
+        r = subprocess.run([go, "test", "-vet=off", "-count=1", "-run", rx, rel], cwd=os.path.join(wt, module), env=env, capture_output=True, text=True, errors="replace")
         return r.returncode, (r.stdout + r.stderr)[-600:]
     rc, out = demo()
     res["demo_passes_without_change"] = rc == 0
     if rc != 0:
         res["demo_clean_output"] = out
-    r = subprocess.run(["git", "-C", wt, "apply", os.path.abspath(os.path.join(seed, "patch.diff"))], capture_output=True, text=True)
+    r = subprocess.run(["git", "-C", wt, "apply", os.path.abspath(os.path.join(seed, "patch.diff"))], capture_output=True, text=True, errors="replace")
     res["patch_applies"] = r.returncode == 0
     rc, out = demo()
     res["demo_fails_with_change"] = rc != 0 and "[build failed]" not in out
@@ -41,7 +41,7 @@ try:
     subprocess.run(["git", "-C", wt, "checkout", "--", "*/go.mod", "*/go.sum", "go.mod", "go.sum"], capture_output=True)
     ok = True
     for m in touched:
-        r = subprocess.run([go, "test", "-vet=off", "-count=1", modtests], cwd=os.path.join(wt, m), env=env, capture_output=True, text=True)
+        r = subprocess.run([go, "test", "-vet=off", "-count=1", modtests], cwd=os.path.join(wt, m), env=env, capture_output=True, text=True, errors="replace")
         ok = ok and r.returncode == 0
         if r.returncode != 0:
             res.setdefault("existing_tests_output", {})[m] = (r.stdout + r.stderr)[-1500:]
